@@ -332,8 +332,8 @@ fn assumptions(_prop: &str) -> Vec<&'static str> {
 fn rule_text(prop: &str) -> String {
     let common = " A case is one simulated run (one forked child, one schedule). Distinct = distinct event-order signature: hash of the ordered log of (task, transport/sync/stage event, connection, result class); only runs in which an oracle of this property was evaluated are counted.";
     let own = match prop {
-        "C07" => "Pool engine: real ThreadPool, size 1..8, 0..4N tasks (instant, long, rendezvous of N, one gated slow task), 1..2 submitters, Random/PCT(1..3)/round-robin schedules from the run seed.",
-        _ => "Seeded scenario generator; see DESIGN.md section 6 for this property.",
+        "C07" => "Pool engine: real ThreadPool, size 1..8 (now and then 16..257), 0..4N tasks (instant, long, rendezvous of N, one gated slow task, panicking), 1..2 submitters, pool dropped after the last hand-over in a share of the runs, simulated clock in half of them, floods of up to 66 000 tasks, thousands of rendezvous rounds; Random/PCT(1..3)/round-robin schedules from the run seed.",
+        _ => "Seeded scenario generators (campaigns listed under runs_per_campaign; exhaustive ones under exhaustive_campaigns); see DESIGN.md section 6 and appendices B, D.3, D.4 for this property.",
     };
     format!("{}{}", own, common)
 }
